@@ -17,6 +17,15 @@ CHECKS = {
         note=("Trusted: vlib/simk.py syscall model and delivery log, vlib/history.py. Reuse within one clock tick is documented as indistinguishable and not generated; what cpu_affinity([]) selects is left to C18."),
         design="DESIGN.md section 3 C01",
     ),
+    "C02": dict(
+        level="exploration",
+        technique="property-based testing (Hypothesis) of op-list histories incl. system clock steps over a simulated process table; all-pairs ==/hash/is_running invariant against ghost incarnation ids",
+        text=("Generated histories of spawn/exit/reap/PID recycling, object creation at any point, system clock steps (the kernel's btime changes), boot_time(), create_time(), "
+              "is_running(), process_iter(), str() and other calls are interpreted against the real code; after every step every pair of objects is compared (==, !=, hash) with "
+              "the ghost incarnation ids, hashes must never change, is_running() must equal 'own incarnation still in the table' and never come back to True. Search, not proof."),
+        note=("Trusted: vlib/simk.py, vlib/history.py. Reuse within one clock tick not generated; objects only for listed PIDs."),
+        design="DESIGN.md section 3 C02",
+    ),
     "C03": dict(
         level="fault_enumeration",
         technique="fault-point enumeration over Hypothesis-generated process states: vanish / zombify / deny injected at every OS access index of every query method on a simulated procfs",
